@@ -138,21 +138,18 @@ def load_translators():
     return mods
 
 
-# translator name -> generated Coq file (relative to coq/theories/Tables)
-TABLES = {
-    "statetree_consts": "StateTreeConsts.v",
-}
+# every translators/<name>.py defines TARGET = "<File>.v" (under coq/theories/Tables) and generate(repo) -> str
 
 
 def regen_tables(only=None):
     """Regenerate Tables/*.v from /repo's working tree. Returns list of (name, error)."""
     errs = []
     for name, mod in load_translators():
-        if name not in TABLES:
+        if not hasattr(mod, "TARGET"):
             continue
         if only is not None and name not in only:
             continue
-        target = os.path.join(COQ, "theories", "Tables", TABLES[name])
+        target = os.path.join(COQ, "theories", "Tables", mod.TARGET)
         try:
             content = mod.generate(REPO)
             write_if_changed(target, content)
